@@ -498,4 +498,185 @@ def testerReact (t : Tester) : List Out → Tester × List TOut
     (r2.1, r.2 ++ r2.2)
   | _ :: os => testerReact t os
 
+
+/-! ### a client with its own pending-request records: `DeckMemoryManager` (cflib/crazyflie/mem/deck_memory.py)
+
+`query_decks`, `_read` and `_write` (reached through `DeckMemory.read / write / _write_command_data`) each keep ONE
+pending-request record - the pair `(complete_cb, failed_cb)` - and refuse a new request of the same kind with an
+exception while it is set.  `_new_data`, `_new_data_failed`, `_write_done`, `_write_failed` are subscribers of
+`Memory`'s four callback lists (wired in `_handle_cmd_info_details`); they clear the record and call the callback.
+A request is identified by a number `rid` (ghost; in the harness the callbacks are closures over it);
+`hasFail`: an (optional) failure callback was supplied.  An exception raised by a subscriber propagates through
+`Caller.call` into the `Memory` handler that was delivering the notifications: the remaining subscribers and the
+remaining notifications of that handler are lost (`clientStep`). -/
+
+structure DeckVariant where
+  /-- `_new_data_failed` reports a failed info-section read to `_query_failed_cb` -/
+  queryFailNotifies : Bool
+  /-- `_write_failed` only calls `_write_failed_cb` when one was supplied -/
+  writeFailGuard : Bool
+  /-- `query_decks` / `_read` look at the result of `mem_handler.read` (False = refused) and undo the record -/
+  readAcceptedCheck : Bool
+  /-- `_new_data_failed` clears the read record also when no failure callback was supplied -/
+  readFailClearsAlways : Bool
+  deriving DecidableEq, Repr
+
+def DeckVariant.fixed : DeckVariant := ⟨true, true, true, true⟩
+/-- what the current source does (Tie A) -/
+def DeckVariant.code : DeckVariant :=
+  ⟨Gen.C06.deckQueryFailNotifies, Gen.C06.deckWriteFailGuard, Gen.C06.deckReadAcceptedCheck,
+   Gen.C06.deckReadFailClearsAlways⟩
+
+structure Slot where
+  rid : Nat
+  hasFail : Bool
+  deriving DecidableEq, Repr
+
+structure Deck where
+  id : Nat
+  query : Option Slot        -- _query_complete_cb / _query_failed_cb
+  read : Option Slot         -- _read_complete_cb / _read_failed_cb
+  write : Option Slot        -- _write_complete_cb / _write_failed_cb
+  readBase : Nat             -- _read_base_address
+  deriving DecidableEq, Repr
+
+def Deck.new (id : Nat) : Deck := { id := id, query := none, read := none, write := none, readBase := 0 }
+
+/-- what the manager's callbacks did.  `silent`: a failure for which no failure callback had been supplied (ghost) -/
+inductive DOut
+  | queryDone (rid : Nat)
+  | queryFailed (rid : Nat)
+  | readDone (rid : Nat) (addr : Int) (data : List UInt8)
+  | readFailed (rid : Nat) (addr : Int)
+  | writeDone (rid : Nat) (addr : Int)
+  | writeFailed (rid : Nat) (addr : Int)
+  | silent (rid : Nat)
+  deriving DecidableEq, Repr
+
+/-- `DeckMemoryManager.query_decks(query_complete_cb, query_failed_cb)` -/
+def deckQuery (dv : DeckVariant) (s : St) (d : Deck) (tag rid : Nat) (hasFail : Bool) : Deck × Step :=
+  -- if self._query_complete_cb is not None: raise Exception('Query ongoing')
+  match d.query with
+  | some _ => (d, ⟨s, [], .raised .other⟩)
+  | none =>
+    -- self.mem_handler.read(self, self.INFO_SECTION_ADDRESS, self.SIZE_OF_INFO_SECTION)
+    let r := memRead s tag d.id Gen.C06.deckInfoAddr Gen.C06.deckInfoSize
+    if dv.readAcceptedCheck && r.res == .ret (some false) then (d, { r with res := .raised .other })
+    else ({ d with query := some ⟨rid, hasFail⟩ }, { r with res := match r.res with | .ret _ => .ret none | x => x })
+
+/-- `DeckMemoryManager._read(base_address, address, length, read_complete_cb, read_failed_cb)` -/
+def deckRead (dv : DeckVariant) (s : St) (d : Deck) (tag base address len rid : Nat) (hasFail : Bool) : Deck × Step :=
+  -- if self._read_complete_cb is not None: raise Exception('Read operation ongoing')
+  match d.read with
+  | some _ => (d, ⟨s, [], .raised .other⟩)
+  | none =>
+    -- self._read_base_address = base_address; ...; self.mem_handler.read(self, address + base_address, length)
+    let r := memRead s tag d.id (address + base) len
+    if dv.readAcceptedCheck && r.res == .ret (some false) then
+      ({ d with readBase := base }, { r with res := .raised .other })
+    else ({ d with read := some ⟨rid, hasFail⟩, readBase := base },
+          { r with res := match r.res with | .ret _ => .ret none | x => x })
+
+/-- `DeckMemoryManager._write(base_address, address, data, complete_cb, failed_cb, progress_cb)` -/
+def deckWrite (v : Variant) (s : St) (d : Deck) (tag base address : Nat) (data : List UInt8) (rid : Nat)
+    (hasFail progressCb : Bool) : Deck × Step :=
+  -- if self._write_complete_cb is not None: raise Exception('Write operation ongoing')
+  match d.write with
+  | some _ => (d, ⟨s, [], .raised .other⟩)
+  | none =>
+    -- self.mem_handler.write(self, address + base_address, data, flush_queue=True, progress_cb=progress_cb)
+    let r := memWrite v s tag d.id (address + base) data true progressCb
+    ({ d with write := some ⟨rid, hasFail⟩ }, { r with res := match r.res with | .ret _ => .ret none | x => x })
+
+/-- `_parse_info_section(data)`: `none` = parsed; `some e` = the exception it raises (`.other` stands for the
+RuntimeError of an unsupported version, which `_new_data` catches; a `struct.error` of a too short section is not) -/
+def deckParseInfo (data : List UInt8) : Option PyErr :=
+  match data with
+  | [] => some .structError                              -- struct.unpack('<B', data[0:1])
+  | ver :: _ =>
+    if ver.toNat ≠ Gen.C06.deckSupportedVersion then some .other
+    else if data.length < Gen.C06.deckMinInfoLen then some .structError   -- unpack('<BB', ...) of the last record
+    else none
+
+/-- `DeckMemoryManager._new_data(mem, addr, data)` for `mem.id == self.id` -/
+def deckNewData (d : Deck) (addr : Nat) (data : List UInt8) : Deck × List DOut × Option PyErr :=
+  if addr = Gen.C06.deckInfoAddr then
+    match deckParseInfo data with
+    | none =>
+      -- tmp_cb = self._query_complete_cb; self._clear_query_cb(); tmp_cb(self.deck_memories)
+      match d.query with
+      | some q => ({ d with query := none }, [.queryDone q.rid], none)
+      | none => (d, [], some .typeError)
+    | some .other =>
+      -- except RuntimeError: tmp_cb = self._query_failed_cb; self._clear_query_cb(); if tmp_cb: tmp_cb(str(e))
+      match d.query with
+      | some q => ({ d with query := none }, [if q.hasFail then .queryFailed q.rid else .silent q.rid], none)
+      | none => (d, [], none)
+    | some e => (d, [], some e)
+  else
+    -- tmp_cb = self._read_complete_cb; self._clear_read_cb(); tmp_cb(addr - self._read_base_address, data)
+    match d.read with
+    | some q => ({ d with read := none }, [.readDone q.rid ((addr : Int) - d.readBase) data], none)
+    | none => (d, [], some .typeError)
+
+/-- `DeckMemoryManager._new_data_failed(mem, addr, data)` for `mem.id == self.id` -/
+def deckNewDataFailed (dv : DeckVariant) (d : Deck) (addr : Nat) : Deck × List DOut × Option PyErr :=
+  if addr = Gen.C06.deckInfoAddr then
+    -- self._clear_query_cb(); logger.error(...)      [repaired: the failure callback is told]
+    match d.query with
+    | some q =>
+      ({ d with query := none },
+        if q.hasFail then (if dv.queryFailNotifies then [.queryFailed q.rid] else []) else [.silent q.rid], none)
+    | none => (d, [], none)
+  else
+    -- tmp_cb = self._read_failed_cb; self._clear_read_cb(); if tmp_cb is not None: tmp_cb(addr - base)
+    match d.read with
+    | some q =>
+      if q.hasFail then ({ d with read := none }, [.readFailed q.rid ((addr : Int) - d.readBase)], none)
+      else if dv.readFailClearsAlways then ({ d with read := none }, [.silent q.rid], none)
+      else (d, [], none)
+    | none => (d, [], none)
+
+/-- `DeckMemoryManager._write_done(mem, addr)` for `mem.id == self.id` -/
+def deckWriteDone (d : Deck) (addr : Nat) : Deck × List DOut × Option PyErr :=
+  -- tmp_cb = self._write_complete_cb; self._clear_write_cb(); tmp_cb(addr - self._read_base_address)
+  match d.write with
+  | some q => ({ d with write := none }, [.writeDone q.rid ((addr : Int) - d.readBase)], none)
+  | none => (d, [], some .typeError)
+
+/-- `DeckMemoryManager._write_failed(mem, addr)` for `mem.id == self.id` -/
+def deckWriteFailed (dv : DeckVariant) (d : Deck) (addr : Nat) : Deck × List DOut × Option PyErr :=
+  -- tmp_cb = self._write_failed_cb; self._clear_write_cb(); tmp_cb(addr - self._read_base_address)
+  match d.write with
+  | some q =>
+    if q.hasFail then ({ d with write := none }, [.writeFailed q.rid ((addr : Int) - d.readBase)], none)
+    else if dv.writeFailGuard then ({ d with write := none }, [.silent q.rid], none)
+    else ({ d with write := none }, [], some .typeError)
+  | none => if dv.writeFailGuard then (d, [], none) else (d, [], some .typeError)
+
+/-- the manager's subscribers react to the notifications of one `Memory` event, in order; the first exception
+ends the delivery: `(deck, what its callbacks did, notifications actually delivered, exception)` -/
+def deckReact (dv : DeckVariant) (d : Deck) : List Out → Deck × List DOut × List Out × Option PyErr
+  | [] => (d, [], [], none)
+  | o :: os =>
+    let r : Deck × List DOut × Option PyErr :=
+      match o with
+      | .readOk _ i a data => if i = d.id then deckNewData d a data else (d, [], none)
+      | .readFail _ i a _ => if i = d.id then deckNewDataFailed dv d a else (d, [], none)
+      | .writeOk _ i a => if i = d.id then deckWriteDone d a else (d, [], none)
+      | .writeFail _ i a => if i = d.id then deckWriteFailed dv d a else (d, [], none)
+      | _ => (d, [], none)
+    match r.2.2 with
+    | some e => (r.1, r.2.1, [o], some e)
+    | none =>
+      let r2 := deckReact dv r.1 os
+      (r2.1, r.2.1 ++ r2.2.1, o :: r2.2.2.1, r2.2.2.2)
+
+/-- one `Memory` event with the manager subscribed: state, what was observably delivered, what the manager's
+callbacks did; an exception of a subscriber becomes the exception of the event -/
+def clientStep (dv : DeckVariant) (v : Variant) (s : St) (d : Deck) (e : Ev) : Deck × Step × List DOut :=
+  let r := step v s e
+  let x := deckReact dv d r.outs
+  (x.1, { r with outs := x.2.2.1, res := match x.2.2.2 with | some err => .raised err | none => r.res }, x.2.1)
+
 end CfVerif.C06
